@@ -124,8 +124,25 @@ def cli_case(ctx, k):
             s = M.gen_read(rng, cfg, aseq)
             recs.append((f"r{i}", s, "I" * len(s)))
         inputs = climon.write_inputs(d, recs)
-        argv = [FLAG[cfg["type"]], SPEC[cfg["type"]].format(s=cfg["seq"]), "-e", repr(cfg["max_errors"]), "-O", str(cfg["min_overlap"]),
+        argv = [FLAG[cfg["type"]], "main=" + SPEC[cfg["type"]].format(s=cfg["seq"]), "-e", repr(cfg["max_errors"]), "-O", str(cfg["min_overlap"]),
                 "--info-file", "info.tsv", "-o", "out.fq"]
+        others = {}
+        if cfg["type"] in ("prefix", "suffix") and rng.random() < 0.6:
+            # further anchored adapters of the same kind with their own lengths and tolerances (an index is built when
+            # all of them can be indexed); reads carrying damaged copies of them are added
+            for j in range(rng.randint(1, 3)):
+                oseq = M.rnd_seq(rng, rng.randint(4, 20), "ACGT")
+                orate = rng.choice([0, 0.05, 0.1, 0.2, 0.3])
+                others[f"x{j}"] = (oseq, orate)
+                pair = [FLAG[cfg["type"]], f"x{j}=" + SPEC[cfg["type"]].format(s=oseq) + f";e={orate}"]
+                argv = (pair + argv) if rng.random() < 0.5 else (argv[:2] + pair + argv[2:])
+                for i in range(8):
+                    core = M.mutate(rng, oseq, rng.choice([0, 1, 1, 2, 3]), "ACGT", cfg["indels"])
+                    flank = M.rnd_seq(rng, rng.randint(0, 10), "ACGT")
+                    s_ = core + flank if cfg["type"] == "prefix" else flank + core
+                    recs.append((f"o{j}_{i}", s_, "I" * len(s_)))
+            inputs = climon.write_inputs(d, recs)
+            ctx.count("cli_runs_with_several_anchored_adapters")
         if not cfg["aw"]:
             argv.append("-N")
         if cfg["rw"]:
@@ -152,6 +169,17 @@ def cli_case(ctx, k):
                     continue
                 read = reads[fastx.rid(col[0])]
                 err, r0, r1 = int(col[1]), int(col[2]), int(col[3])
+                if col[7] != "main":
+                    # a row of one of the other anchored adapters: judged with that adapter's sequence and tolerance
+                    oseq, orate = others[col[7]]
+                    ctx.case(("cli-other", str(argv), read))
+                    n = len(read)
+                    ok_place = (r0 == 0) if cfg["type"] == "prefix" else (r1 == n)
+                    dist = R.edit_distance(oseq, read[r0:r1], R.make_eq(False, False)) if cfg["indels"] else (R.hamming(oseq, read[r0:r1], R.make_eq(False, False)) if len(oseq) == r1 - r0 else None)
+                    if not (0 <= r0 <= r1 <= n) or not ok_place or dist != err or err > orate * len(oseq):
+                        ctx.violation("cli-row-unexplained", f"info row for adapter {col[7]} ({oseq}, e={orate}): errors={err} start={r0} end={r1} on read {read!r}; "
+                                      f"distance of the full adapter to that stretch is {dist}, tolerance {orate * len(oseq):.2f}; argv={argv}", case, klass="other" + cfg["type"])
+                    continue
                 ctx.case(("cli", str(argv), read))
                 ctx.count("cli_match_rows")
                 n = len(read)
